@@ -41,6 +41,9 @@ type Ctx struct {
 	retParam  map[*ssa.Function]int
 	aliases   map[*ssa.Function]string
 	arith     map[*ssa.Function]bool
+	bceDone   bool
+	bceSites  []BCESite
+	bceErr    error
 }
 
 // theCtx: the program being analysed (one per process; used by the control-flow helpers to look through new helpers).
